@@ -84,7 +84,9 @@ def main():
         elif config == "callable_currents":
             kw["terminal_currents"] = cur
         elif config == "hole_terminals":
-            kw["terminal_currents"] = {"source": 1.5, "drain": -1.5}
+            dt = 2.0**-7
+            o.update(solve_time=6 * dt, dt_init=dt, dt_max=dt)
+            kw["terminal_currents"] = {"source": 0.4, "drain": -0.4}
         if outmode == "temp":
             sol = tdgl.solve(dev, tdgl.SolverOptions(**o), **kw)
             # memory-only: digest what the solution exposes
